@@ -45,6 +45,12 @@ def view(env, render):
              state_readable=norm(env.current_state.get_readable()),
              obs_readable=norm(env.last_obs.get_readable()),
              goal=bool(env.goal_reached()))
+    if render:
+        b = io.StringIO()
+        with contextlib.redirect_stdout(b):
+            env.render_obs("human", env.last_obs.numpy_flat())
+            env.render_state("human", env.current_state.numpy_flat())
+        v["render"] = b.getvalue()
     def q(fn):
         try:
             with contextlib.redirect_stdout(io.StringIO()):
@@ -60,12 +66,6 @@ def view(env, render):
     v["bound"] = q(lambda: float(env.get_score_upper_bound()))
     if hasattr(env.action_space, "n"):
         v["mask"] = q(lambda: np.asarray(env.get_action_mask()).tobytes())
-    if render:
-        b = io.StringIO()
-        with contextlib.redirect_stdout(b):
-            env.render_obs("human", env.last_obs.numpy_flat())
-            env.render_state("human", env.current_state.numpy_flat())
-        v["render"] = b.getvalue()
     return v
 
 
